@@ -363,6 +363,14 @@ def skipExact (A : Acr) (search : Bytes) (slice : List Style) : Bool :=
     (!Gen.skipExactUsesTokens || decide ((parse A search).length < 2)) &&
     decide (slice.length = 1)
 
+/-- the variant table of a CLI call: the handlers always pass `Some(AtomicConfig)`, and `generate_variant_map_with_acronyms`
+    then takes `case_model::generate_variant_map_internal` (first row wins, `or_insert`; rows with an empty key skipped) and
+    stores every pair with style `None`.  With no `--atomic-*` flag and no configured identifier nothing is atomic. -/
+def cliVariantMap (A : Acr) (styles : Option (List Style)) (plurals : Bool) (sing plur : Bytes → Option Bytes)
+    (search replace : Bytes) : SMap :=
+  ((variantMap A styles plurals sing plur (isAmbiguous A search Gen.allStyles) search replace).filter
+    (fun e => !e.1.isEmpty)).map (fun e => (e.1, [(none, e.2)]))
+
 structure Cfg where
   A : Acr
   env : Env
@@ -372,9 +380,13 @@ structure Cfg where
   plur : Bytes → Option Bytes
   search : Bytes
   replace : Bytes
+  /-- `true`: the call of the CLI handlers (atomic configuration present); `false`: core API with `atomic_config = None` -/
+  cliPath : Bool := true
 
 def Cfg.vmap (cfg : Cfg) : SMap :=
-  scanVariantMap cfg.A (buildStylesList cfg.opts) cfg.plurals cfg.sing cfg.plur cfg.search cfg.replace
+  if cfg.cliPath then
+    cliVariantMap cfg.A (buildStylesList cfg.opts) cfg.plurals cfg.sing cfg.plur cfg.search cfg.replace
+  else scanVariantMap cfg.A (buildStylesList cfg.opts) cfg.plurals cfg.sing cfg.plur cfg.search cfg.replace
 
 /-- the hunks of the exact matches, in match order; `none` when a match has no replacement (cannot happen for map keys) -/
 def exactHunks (cfg : Cfg) (vm : SMap) (line : Bytes) : List (Nat × Bytes) → Option (List Edits.Edit)
